@@ -53,6 +53,12 @@ def ops(g, traits, has_inv):
         reqs.put_traits(P(1), g + 1, [T1, T2], tag='PUT traits(g+1)'),
         reqs.put_aggs(P(1), g + 1, [A(1), A(2)], tag='PUT aggregates(g+1)'),
         reqs.reshaper({P(1): (g + 1, {'VCPU': {'total': 5}})}, {}, tag='reshaper(g+1)'),
+        # writes that leave the provider without inventory (nothing to add or update): the
+        # generation must be compared and moved all the same
+        reqs.put_invs(P(1), g, {}, tag='PUT inventories(g) empty'),
+        reqs.put_invs(P(1), stale, {}, tag='PUT inventories(stale) empty'),
+        reqs.reshaper({P(1): (g, {})}, {}, tag='reshaper(g) emptying P1'),
+        reqs.reshaper({P(1): (stale, {})}, {}, tag='reshaper(stale) emptying P1'),
     ]
     return o
 
@@ -89,7 +95,7 @@ def run(ctx):
     sc = scenarios(ctx.quick, ctx.seed)
     tot = explore_conc.run_scenarios(ctx, 'C05', sc)
     fill(ctx, tot, len(sc), 'three start states (bare provider / inventory / inventory+traits+'
-         'aggregates+consumer) x all unordered pairs (with repetition) of 20 provider-writing '
+         'aggregates+consumer) x all unordered pairs (with repetition) of 24 provider-writing '
          'operations (PUT inventories, PUT inventory, POST/DELETE inventory, DELETE inventories, PUT '
          'traits changing/no-op, DELETE traits, PUT aggregates 1.19/1.18, reshaper, PUT allocations, '
          'PUT provider (rename, carries no generation); generation-carrying ones with current, stale and not-yet-'
